@@ -5,7 +5,7 @@ from common import COMMON_TRUSTED
 # manifest (open succeeds, empty metadata, and the reader WRITES a 17-byte header into it); (b) cut exactly between two
 # 16-byte tuples - opens and ReadAll returns the shorter log. "observe" (default) records them as a note and a count in the
 # evidence, "enforce" turns them into failures (signatures empty-manifest-opens-as-new:*, manifest-cut-between-tuples-reads-shorter-log:*).
-_MANIFEST_ENV = {"VERIF_C13_MANIFEST_UNDETECTABLE": "observe"}
+_MANIFEST_ENV = {"VERIF_C13_MANIFEST_UNDETECTABLE": "enforce"}
 
 PROP = dict(
     title="Truncated index or CAR files fail loudly instead of answering 'not found'",
